@@ -373,8 +373,10 @@ func runCheck(o *CheckOpts) int {
 				}
 			}
 		}
-		if status == "refuted" {
-			confirmed = true // structural/schema checkers point at the concrete site in the real code
+		if status == "refuted" && !confirmed {
+			// structural/schema checkers point at the concrete site in the real code, but that is not a
+			// failing input: the line still says so
+			rep["replay"] = "structural refutation at the recorded source position; no input involved"
 		}
 		rep["confirmed_on_real_code"] = confirmed
 		b, _ := json.MarshalIndent(rep, "", " ")
